@@ -545,18 +545,25 @@ Proof.
   - right. simpl in Hfb. apply fallback_only_if_opted_in. exact Hfb.
 Qed.
 
-(** the subject of a real chain is the one of the first authenticator that
-    accepts, and the authenticators consulted are the configured ones in order *)
+(** the subject of a real chain is the one of the FIRST authenticator that accepts:
+    the accepting step is the last consulted one, at its position of the chain as
+    the composite sees it ([to_chain], i.e. with that position's cache lookup), and
+    no step at an earlier position accepted the request *)
 Theorem typed_first_success q hits ca n s :
   authenticate ca hits q = (n, RSubject s) ->
-  exists j a h, n = S j /\ nth_error ca j = Some a /\ classify (a_type a) h q = Accepted s.
+  exists j a h, n = S j /\ nth_error ca j = Some a /\ classify (a_type a) h q = Accepted s /\
+    nth_error (to_chain q ca hits) j = Some {| c_out := classify (a_type a) h q; c_fb := fallback_allowed a |} /\
+    forall i b, i < j -> nth_error (to_chain q ca hits) i = Some b -> forall s', c_out b <> Accepted s'.
 Proof.
   intro H. unfold authenticate in H.
-  destruct (first_success_wins _ _ _ H) as (pre & b & post & E & -> & Hacc & _ & _).
+  destruct (first_success_wins _ _ _ H) as (pre & b & post & E & -> & Hacc & Hnot & _).
   assert (Hb : nth_error (to_chain q ca hits) (length pre) = Some b).
   { rewrite E. rewrite nth_error_app2 by lia. rewrite Nat.sub_diag. reflexivity. }
-  apply to_chain_nth in Hb as (a & h & Ha & ->).
-  exists (length pre), a, h. repeat split; assumption.
+  pose proof Hb as Hb'. apply to_chain_nth in Hb' as (a & h & Ha & Eb).
+  exists (length pre), a, h. split; [reflexivity|]. split; [exact Ha|].
+  split; [subst b; exact Hacc|]. split; [rewrite Hb, Eb; reflexivity|].
+  intros i b' Hi Hb'' s' Hs'. rewrite E in Hb''. rewrite nth_error_app1 in Hb'' by exact Hi.
+  apply nth_error_In in Hb''. rewrite Forall_forall in Hnot. apply (Hnot b' Hb''). exists s'. exact Hs'.
 Qed.
 
 (** ** The rejections the statement names *)
